@@ -18,6 +18,7 @@ struct NodeOp {
     ids: Vec<u64>,
     valid: Vec<u64>,
     flap: Vec<u64>,
+    drop: Vec<u64>,
     local: u64,
 }
 
@@ -30,6 +31,7 @@ fn parse_node(ws: &[&str]) -> Option<NodeOp> {
     let mut valid = vec![];
     let mut local = 0;
     let mut flap = vec![];
+    let mut drop = vec![];
     for w in ws {
         if let Some(v) = w.strip_prefix("ids=") {
             ids = parse_list(v);
@@ -37,11 +39,13 @@ fn parse_node(ws: &[&str]) -> Option<NodeOp> {
             valid = parse_list(v);
         } else if let Some(v) = w.strip_prefix("flap=") {
             flap = parse_list(v);
+        } else if let Some(v) = w.strip_prefix("drop=") {
+            drop = parse_list(v);
         } else if let Some(v) = w.strip_prefix("local=") {
             local = v.parse().ok()?;
         }
     }
-    Some(NodeOp { ids, valid, flap, local })
+    Some(NodeOp { ids, valid, flap, drop, local })
 }
 
 fn addr_of(id: u64) -> Arc<String> {
@@ -92,7 +96,8 @@ pub fn run() {
         let rounds = 7; // 7 * 3 s = 21 s > 15 s + one 3 s status tick
         for _ in 0..rounds {
             for s in slots.iter().flatten() {
-                for id in &s.0.valid {
+                // `drop` nodes are alive during this phase and fall silent afterwards
+                for id in s.0.valid.iter().chain(s.0.drop.iter()) {
                     if *id != s.0.local {
                         s.1.do_send(NodeManageRequest::ActiveNode(*id));
                     }
@@ -101,17 +106,51 @@ pub fn run() {
             tokio::time::sleep(Duration::from_millis(3000)).await;
         }
         // phase 2: nodes that "flap" were starved above (now Invalid) and report in again; after the next
-        // status ticks they must count as live again and the owner range must follow
-        if slots.iter().flatten().any(|s| !s.0.flap.is_empty()) {
-            for _ in 0..3 {
-                for s in slots.iter().flatten() {
-                    for id in s.0.valid.iter().chain(s.0.flap.iter()) {
-                        if *id != s.0.local {
-                            s.1.do_send(NodeManageRequest::ActiveNode(*id));
+        // status ticks they must count as live again and the owner range must follow.  In a view that also has
+        // `drop` nodes the flapping nodes report in again just when the dropped ones run into their time-out
+        // (15 s after their last ping), so that one and the same status tick sees a node come back and another one
+        // expire: the number of live nodes stays, the live set changes.
+        if slots.iter().flatten().any(|s| !s.0.flap.is_empty() || !s.0.drop.is_empty()) {
+            let swap = slots.iter().flatten().any(|s| !s.0.drop.is_empty());
+            // the status ticks of the actors run in step with the ping rounds above (both started together, both every
+            // 3 s): the dropped nodes get their last ping in the middle of a period, so that the instant at which they run
+            // into the time-out - and at which the flapping nodes report in again - lies in the middle of a period too
+            let drop_last = std::time::Instant::now() + Duration::from_millis(1500);
+            let mut drop_done = !swap;
+            let swap_at = drop_last + Duration::from_millis(15050);
+            let end = if swap { swap_at + Duration::from_millis(9000) } else { std::time::Instant::now() + Duration::from_millis(9000) };
+            let mut next_ping = std::time::Instant::now();
+            let mut flap_started = false;
+            while std::time::Instant::now() < end {
+                let now = std::time::Instant::now();
+                if !drop_done && now >= drop_last {
+                    drop_done = true;
+                    for s in slots.iter().flatten() {
+                        for id in s.0.drop.iter() {
+                            if *id != s.0.local {
+                                s.1.do_send(NodeManageRequest::ActiveNode(*id));
+                            }
                         }
                     }
                 }
-                tokio::time::sleep(Duration::from_millis(3000)).await;
+                let start_flap = swap && !flap_started && now >= swap_at;
+                if now >= next_ping || start_flap {
+                    if now >= next_ping {
+                        next_ping = now + Duration::from_millis(3000);
+                    }
+                    if start_flap {
+                        flap_started = true;
+                    }
+                    for s in slots.iter().flatten() {
+                        let flap_on = s.0.drop.is_empty() || now >= swap_at;
+                        for id in s.0.valid.iter().chain(s.0.flap.iter().filter(|_| flap_on)) {
+                            if *id != s.0.local {
+                                s.1.do_send(NodeManageRequest::ActiveNode(*id));
+                            }
+                        }
+                    }
+                }
+                tokio::time::sleep(Duration::from_millis(10)).await;
             }
         }
         let mut out = vec![];
